@@ -18,6 +18,8 @@ type comparison =
 | Lt
 | Gt
 
+val compOpp : comparison -> comparison
+
 val add : nat -> nat -> nat
 
 type positive =
@@ -28,6 +30,11 @@ type positive =
 type n =
 | N0
 | Npos of positive
+
+type z =
+| Z0
+| Zpos of positive
+| Zneg of positive
 
 module Pos :
  sig
@@ -65,6 +72,8 @@ module Coq_Pos :
   val mul : positive -> positive -> positive
 
   val iter : ('a1 -> 'a1) -> 'a1 -> positive -> 'a1
+
+  val pow : positive -> positive -> positive
 
   val compare_cont : comparison -> positive -> positive -> comparison
 
@@ -107,6 +116,8 @@ module N :
 
   val div2 : n -> n
 
+  val pow : n -> n -> n
+
   val pos_div_eucl : positive -> n -> n * n
 
   val div_eucl : n -> n -> n * n
@@ -124,9 +135,60 @@ module N :
   val of_nat : nat -> n
  end
 
+val nth_error : 'a1 list -> nat -> 'a1 option
+
+val rev : 'a1 list -> 'a1 list
+
+val map : ('a1 -> 'a2) -> 'a1 list -> 'a2 list
+
+val existsb : ('a1 -> bool) -> 'a1 list -> bool
+
 val firstn : nat -> 'a1 list -> 'a1 list
 
 val skipn : nat -> 'a1 list -> 'a1 list
+
+module Z :
+ sig
+  val double : z -> z
+
+  val succ_double : z -> z
+
+  val pred_double : z -> z
+
+  val pos_sub : positive -> positive -> z
+
+  val add : z -> z -> z
+
+  val opp : z -> z
+
+  val sub : z -> z -> z
+
+  val mul : z -> z -> z
+
+  val compare : z -> z -> comparison
+
+  val leb : z -> z -> bool
+
+  val ltb : z -> z -> bool
+
+  val eqb : z -> z -> bool
+
+  val to_N : z -> n
+
+  val of_N : n -> z
+
+  val pos_div_eucl : positive -> z -> z * z
+
+  val div_eucl : z -> z -> z * z
+
+  val modulo : z -> z -> z
+
+  val quotrem : z -> z -> z * z
+
+  val quot : z -> z -> z
+
+  val rem : z -> z -> z
+ end
 
 type 'a res =
 | Ok of 'a
@@ -136,6 +198,14 @@ type 'a res =
 val bind : 'a1 res -> ('a1 -> 'a2 res) -> 'a2 res
 
 val guard : bool -> n -> 'a1 res -> 'a1 res
+
+type ovf =
+| Checked
+| Wrapping
+
+val usub : ovf -> n -> n -> n -> n res
+
+val umul : ovf -> n -> n -> n -> n res
 
 val lenN : 'a1 list -> n
 
@@ -147,11 +217,23 @@ val subN : 'a1 list -> n -> n -> 'a1 list
 
 val le_val : n list -> n
 
+val be_val : n list -> n
+
 val le_enc : nat -> n -> n list
 
 val slice : 'a1 list -> n -> n -> 'a1 list res
 
+val slice_from : 'a1 list -> n -> 'a1 list res
+
+val slice_to : 'a1 list -> n -> 'a1 list res
+
+val idx : 'a1 list -> n -> 'a1 res
+
 val arr : n -> 'a1 list -> 'a1 list res
+
+val to_signed : n -> n -> z
+
+val of_signed : n -> z -> n
 
 type trg = { t_udp : n; t_ts : n; t_out : n; t_in : n; t_pulser : n;
              t_trigbm : n; t_nim : n; t_esata : n; t_mlu : bool; t_aw16p : 
@@ -183,3 +265,66 @@ val e32 : n -> n list
 val trg_encode : trg -> n list
 
 val trg_obs : trg -> n list
+
+type entry =
+| TS of n * bool * n
+| MK of bool * n
+
+val nUM_INPUT_CHANNELS : n
+
+val word : n -> n -> n -> n -> entry option
+
+type elem =
+| E of entry
+| Scalers
+
+val sCALERS_BODY : n
+
+val next : n list -> (elem * n list) option
+
+val parse : nat -> n list -> entry list * n list
+
+val cb_fifo : n list -> entry list * n list
+
+val cb_feed : n list -> n list list -> entry list * n list
+
+val entry_obs : entry -> n list
+
+type adc_long = { al_mac : n list; al_offset : z; al_build : n;
+                  al_wave : z list }
+
+type adc = { a_trig : n; a_module : n; a_chan : n; a_req : n; a_ts : 
+             n; a_long : adc_long option; a_baseline : z; a_keep_last : 
+             n; a_keep_bit : bool; a_supp : bool }
+
+val bASELINE_SAMPLES : n
+
+val mIN_KEEP_LAST : n
+
+val rd_be : n list -> n -> n -> n res
+
+val list_eqb : n list -> n list -> bool
+
+val mac_known : n list list -> n list -> bool
+
+val chunks2_be : n list -> z list
+
+val iadd32 : ovf -> z -> z -> z res
+
+val isum32 : ovf -> z -> z list -> z res
+
+val i16_unwrap : z -> z res
+
+val e : n
+
+val adc_decode : n list list -> ovf -> n list -> adc res
+
+val alpha16_boards : (n list * n list) list
+
+val padwing_boards : ((n list * n list) * n) list
+
+val adc_macs : n list list
+
+val pwb_macs : n list list
+
+val pwb_devices : n list
